@@ -1,13 +1,15 @@
 #!/bin/sh
 # Build the orchestrator from files on disk only (offline).
 set -e
-cd /verif
+cd "$(dirname "$0")"
+V=$(pwd)
+R=${VERIF_REPO:-/repo}
 export GOFLAGS=-mod=mod GOPROXY=off GOSUMDB=off GOTOOLCHAIN=local
 mkdir -p bin evidence replays .work
 go build -o bin/verif ./cmd/verif
 # Warm the Go build cache (standard library with and without -race, pprof's
 # dependencies) so that the first check does not pay for it.
-./bin/verif instrument /verif/.work/setup >/dev/null
-(cd /repo && go test -c -tags verif -vet=off -overlay=/verif/.work/setup/overlay.json -o /verif/.work/setup/d.test ./internal/driver && \
- go test -c -race -tags verif -vet=off -overlay=/verif/.work/setup/overlay.json -o /verif/.work/setup/dr.test ./internal/driver) || echo "warm-up build failed (checks will report it)"
-rm -rf /verif/.work/setup
+VERIF_DIR=$V ./bin/verif instrument $V/.work/setup >/dev/null
+(cd $R && go test -c -tags verif -vet=off -overlay=$V/.work/setup/overlay.json -o $V/.work/setup/d.test ./internal/driver && \
+ go test -c -race -tags verif -vet=off -overlay=$V/.work/setup/overlay.json -o $V/.work/setup/dr.test ./internal/driver) || echo "warm-up build failed (checks will report it)"
+rm -rf $V/.work/setup
